@@ -197,6 +197,10 @@ def _events(pool):
     return ev
 
 
+def _compact(evs):
+    return [e for e in evs if (e[0] in ("compute", "persist", "update", "drop", "graph") and e[1] in (0, 1)) or e == ("cfg", ("array.optimize-graph", False)) or e == ("cfg", ("split_every", 2)) or e[0] == "cfg_reset"]
+
+
 def run_history(src, pool, hist, out=None):
     import dask_array as da
 
@@ -290,14 +294,16 @@ def plan(tier, seed):
             for e0 in range(len(evs)):
                 shards.append({"what": "history", "pool": pi, "src": si, "first": e0, "L": L, "tier": tier})
     if tier != "quick":
-        for e0 in range(len(_events(POOLS[1]))):
-            for e1 in range(len(_events(POOLS[1]))):
-                shards.append({"what": "history", "pool": 1, "src": 0, "first": e0, "second": e1, "L": 4, "tier": tier})
+        # length 4 over a compact alphabet (two programs that share a subtree)
+        nc = len(_compact(_events(POOLS[1])))
+        for e0 in range(nc):
+            for e1 in range(nc):
+                shards.append({"what": "history", "pool": 1, "src": 0, "first": e0, "second": e1, "L": 4, "tier": tier, "compact": True})
     return {
         "shards": shards,
         "coverage": {
             "exhaustive": True,
-            "bounds": {"configs": len(cfgs), "config_space": "one-at-a-time + all pairs of non-default (key,value)s" if tier == "quick" else "full cross product of all listed values", "programs": len(progs), "placements": ["build", "compute", "both"], "pools": len(pools), "history_length": L, "events_per_pool": len(_events(POOLS[0]))},
+            "bounds": {"configs": len(cfgs), "config_space": "one-at-a-time + all pairs of non-default (key,value)s" if tier == "quick" else "full cross product of all listed values", "programs": len(progs), "placements": ["build", "compute", "both"], "pools": len(pools), "history_length": L, "length4_compact_events": len(_compact(_events(POOLS[1]))) if tier != "quick" else 0, "events_per_pool": len(_events(POOLS[0]))},
             "rule": "(a) every program x every configuration of the listed optimizer/planner keys x {set at construction, at compute, at both}: value equals NumPy; (b) all histories of length <= L from the reset state (registries and _LOWER_CACHE cleared) over {build, compute, graph, persist, in-place update (c[0:1] = v), drop+gc of each of 5 programs sharing subtrees; config changes} : every compute in every history and every member at the end equals NumPy. Non-trivial = config differs from default / history with >= 2 distinct programs materialized",
         },
         "assumptions": ["reset state = SingletonExpr registries and _LOWER_CACHE cleared + gc.collect()", "synchronous scheduler"],
@@ -332,6 +338,8 @@ def run_shard(shard):
         pools = POOLS + EXTRA_POOLS
         pool = pools[shard["pool"]]
         evs = _events(pool)
+        if shard.get("compact"):
+            evs = _compact(evs)
         heads = [(evs[shard["first"]],)] if "second" not in shard else [(evs[shard["first"]], evs[shard["second"]])]
         L = shard["L"]
         for head in heads:
